@@ -93,30 +93,48 @@ CAPSET = (1, 2, 3, 4, 5, 6, 7, 8, 9, 10, 12, 15, 16, 17, 24, 31, 32, 33, 48, 63,
 
 
 def capwrap_cases(fresh):
-    """deterministic: every capacity of CAPSET x every fill level (corner levels 0,1,2,3,cap/2,cap-2,cap-1,cap above
-    capacity 10) held while 2 cap + 3 items pass through, so start and start + len wrap at least twice; reads at the
-    corner indices on the way.  Bounded: push+pop below capacity (the not-full path), evicting pushes at capacity.
-    Fixed: 2 cap + 3 pushes from every (corner) `first`, reads at indices up to 2 cap (they wrap)."""
-    def corners(cap, top):
-        return list(range(top + 1)) if cap <= 10 else sorted(v for v in {0, 1, 2, 3, cap // 2, cap - 2, cap - 1, cap} if v <= top)
+    """deterministic: every capacity of CAPSET x fill levels (every level up to capacity 10; corner levels
+    0,1,2,3,cap/2,cap-2,cap-1,cap up to 65; 0,1,cap/2,cap-1,cap above) held while 2 cap + 3 items pass through, so
+    start and start + len wrap at least twice; reads at the corner indices on the way and when start == cap - 1.
+    Bounded: push+pop below capacity (the not-full path; above capacity 65 every other stretch of 8 items goes through
+    extend + drain in blocks of 4), evicting pushes at capacity.  Fixed: 2 cap + 3 pushes from (corner) `first`
+    indices, reads at indices up to 2 cap (they wrap)."""
+    def corners(cap, top, level=0):
+        if cap <= 10:
+            return list(range(top + 1))
+        c = ({0, 1, 2, 3, cap // 2, cap - 2, cap - 1, cap}, {0, 1, cap // 2, cap - 1, cap}, {0, cap // 2, cap - 1})[level]
+        return sorted(v for v in c if v <= top)
     out, k = [], 0
     for cap in CAPSET:
         data = [fresh() for _ in range(cap)]
         rounds = 2 * cap + 3
         every = max(1, rounds // 5)
-        for fill in corners(cap, cap):
-            start = corners(cap, cap - 1)[k % len(corners(cap, cap - 1))]
+        big = cap > 65
+        starts = corners(cap, cap - 1)
+        for fill in corners(cap, cap, 1 if big else 0):
+            cur = starts[k % len(starts)]
             reads = [[("get", "idx")[(k + i) % 2], i] for i in corners(cap, cap) if i < fill or i == fill == 0]
-            ops = []
-            for r in range(rounds):
-                ops += [["push", fresh()]] if fill == cap else [["push", fresh()], ["pop"]]
-                if r % every == every - 1:
-                    ops += reads[(r // every) % 2::2] + [[("slices", "slicesmut", "len", "full")[(r // every) % 4]]]
+            ops, r, nread, swept = [], 0, 0, False
+            while r < rounds:
+                if big and (r // 8) % 2 == 1 and fill + 4 <= cap:
+                    m = min(4, rounds - r)
+                    ops += [["extend"] + [fresh() for _ in range(m)], ["drain", m]]
+                else:
+                    m = 1
+                    ops += [["push", fresh()]] if fill == cap else [["push", fresh()], ["pop"]]
+                r += m
+                cur = (cur + m) % cap
+                if r >= (nread + 1) * every:
+                    ops += reads[nread % 2::2] + [[("slices", "slicesmut", "len", "full")[nread % 4]]]
+                    nread += 1
+                if not swept and cur >= cap - min(cap, 4):      # the live region is about to pass the end of the storage
+                    ops += reads + [["slices"]]
+                    swept = True
             ops += [["iter"], ["extend"] + [fresh() for _ in range(min(cap, 5) + 2)], ["slices"], ["drain", fill // 2],
                     ["push", fresh()], ["iter"], ["drainlen"]]
-            out.append(build(dict(kind="B", store=k % 5, start=start, len=fill, data=data, ops=ops)))
+            out.append(build(dict(kind="B", store=k % 5, start=starts[k % len(starts)], len=fill, data=data, ops=ops)))
             k += 1
-        for first in corners(cap, cap - 1):
+        for first in corners(cap, cap - 1, 2 if big else (1 if cap > 10 else 0)):
             reads = [[("get", "idx")[(k + i) % 2], i] for i in sorted(set(corners(cap, cap) + [cap + 1, 2 * cap - 1, 2 * cap]))]
             ops = []
             for r in range(rounds):
@@ -215,11 +233,11 @@ def gen_cases(rng, tier):
                         store += 1
     n_exh = len(items)
     # 2. random histories from random raw states
-    n_rand = 1500 if tier == "quick" else 30000
+    n_rand = 1300 if tier == "quick" else 30000
     for k in range(n_rand):
         r = rng.fork(f"hist{k}")
         kind = "B" if r.chance(3, 5) else "F"
-        cap = r.choice([1, 1, 2, 2, 3, 3, 4, 5, 6, 7, 8, 9, 13, 16, 31, 64, 10, 12, 15, 17, 24, 33, 48, 100])
+        cap = r.choice([1, 1, 2, 2, 3, 3, 4, 5, 6, 7, 8, 9, 13, 16, 31, 64, 10, 12, 15, 24, 48])
         if tier == "thorough" and r.chance(1, 20):
             cap = r.range(65, 300)
         data = [fresh() for _ in range(cap)]
@@ -306,7 +324,7 @@ def main(rep, tier, seed):
             "case": {k: small[k] for k in ("kind", "store", "start", "len", "first", "data", "ops") if k in small},
             "harness_line": small["line"], "implementation_observations": out, "model_observations": model[-3000:],
             "original_case_index": idx, "replay": f"./check.py C06 --replay <this file>"})
-    dist = {"ops_histogram": hist, "exhaustive_small_state_cases": n_exh, "random_histories": len(items) - n_exh - len(corpus),
+    dist = {"ops_histogram": hist, "exhaustive_small_state_cases": n_exh, "capwrap_capacities": list(CAPSET), "random_histories": len(items) - n_exh - len(corpus),
             "corpus_cases": len(corpus), "panic_observations": panics, "profiles": ["dev (model compared)", "release (diffed against dev)", "relchk (diffed against dev)"], "profile_differences": len(pdiffs)}
     samples = [items[i]["line"] for i in (0, n_exh // 2, len(items) - 1)]
     return finish(rep, info, len(items), nontriv, dist, samples, bad)
@@ -321,7 +339,7 @@ def finish(rep, info, n, nontriv, dist, samples, bad=()):
                                            "modelled, not verified: Rust slices as lists, mem::replace/ptr::read/ptr::write as list updates; usize as nat in the refinement theorems, with the 64-bit reading of every index addition proved free of overflow in valid states for indices up to usize::MAX (c06_index_arith_no_overflow), slice lengths assumed <= 2^63 (true of every non-zero-sized element type)"],
         "theorems": th, "axioms_reported": info.get("axioms", []),
         "evaluations": n, "distinct_nontrivial": nontriv,
-        "rule": "every raw (start,len)/(first) state of capacities 0..6 (quick) x each operation followed by a full observation sweep, plus random histories (1500 quick) from random raw states over 5 storage kinds (Vec, Box<[T]>, &mut [T], [T; N], Vec with spare capacity); non-trivial = an evicting push or a wrapped slice pair occurs (Bounded), first != 0 (Fixed)",
+        "rule": "the capwrap family (30 capacities 1..257 covering 1, 2, powers of two and their neighbours, even non-powers of two, odd composites and primes x every/corner fill level (Bounded) and first index (Fixed), 2 cap + 3 items passed through so that the indices wrap at least twice, reads at corner indices), every raw (start,len)/(first) state of capacities 0..6 (quick) x each operation followed by a full observation sweep, plus random histories (1300 quick, capacities 1..64) from random raw states over 5 storage kinds (Vec, Box<[T]>, &mut [T], [T; N], Vec with spare capacity); non-trivial = an evicting push or a wrapped slice pair occurs (Bounded), first != 0 (Fixed)",
         "samples": samples, "input_distribution": dist, "disagreements": len(bad),
         "explanation": "theorems: refinement of the model to the ideal queue/delay line for all capacities, states and histories; tie: the model's executable definitions run by coqc on the same cases as the real crate, all observations compared exactly",
     }
